@@ -162,23 +162,24 @@ theorem refines_ionice (c : Cfg) (hg : c.Good) (k : Kernel) (pid : Nat) (st : PS
   | some cls =>
     simp only [Spec.expect] at hs
     split at hs
-    · rename_i hc
+    · rename_i hl
+      simp only [Verdict.promised.injEq] at hs
+      obtain ⟨rfl, rfl⟩ := hs
+      simp only [step, ioniceSet, hg.dflt, hg.lo, hg.hi, hg.noval]
+      split
+      · rfl
+      · rfl
+    · rename_i hl
       split at hs
-      · rename_i hl
-        simp only [Verdict.promised.injEq] at hs
-        obtain ⟨rfl, rfl⟩ := hs
-        simp only [step, ioniceSet, hg.dflt, hg.lo, hg.hi, hg.noval]
-        split
-        · rfl
-        · rfl
-      · split at hs
-        · rename_i hl hz
+      · rename_i hc
+        split at hs
+        · rename_i hz
           simp only [Verdict.promised.injEq] at hs
           obtain ⟨rfl, rfl⟩ := hs
           have : (v.getD 0 ≠ 0 ∧ ([0, 3] : List Int).contains cls = true) := ⟨hz.2, (noval_contains cls).2 hz.1⟩
           simp only [step, ioniceSet, hg.dflt, hg.lo, hg.hi, hg.noval]
           rw [if_pos this]
-        · rename_i hl hz
+        · rename_i hz
           simp only [Verdict.promised.injEq] at hs
           obtain ⟨rfl, rfl⟩ := hs
           have h1 : ¬ (v.getD 0 ≠ 0 ∧ ([0, 3] : List Int).contains cls = true) := by
@@ -200,7 +201,7 @@ theorem refines_ionice (c : Cfg) (hg : c.Good) (k : Kernel) (pid : Nat) (st : PS
           simp only [step, ioniceSet, hg.dflt, hg.lo, hg.hi, hg.noval, h1, hl, if_false, cextIoprioSet, hfit,
             Bool.not_true, Bool.false_eq_true, hnr, hneg, hg.shift, pack_eq _ _ hd, hlt, if_true, sysIoprioSet,
             hacc, resolve_pid k hpid, hst, ofSys, hmod, setProc_eq_replaced, Spec.ioprioValue]
-    · cases hs
+      · cases hs
 
 /-- the region of the (fixed) finding `C18-ineligible-oserror`: every listed CPU has a line in
     `/proc/stat`, none is in the cpuset, and the status line does not start with a range -/
@@ -258,6 +259,7 @@ theorem refines_affinity (c : Cfg) (hg : c.Good) (k : Kernel) (pid : Nat) (st : 
     (cpus : Option (List Int)) (o : Out) (k' : Kernel)
     (hpid : pid ≠ 0) (hst : k.procs pid = some st) (hwf : WF k st)
     (hreg : ¬ InFindingRegion k st (.cpuAffinity cpus))
+    (hlong : ∀ l, cpus = some l → AllLong l)
     (hs : Spec.expect k pid st (.cpuAffinity cpus) = .promised o k') :
     step c k pid (.cpuAffinity cpus) = (o, k') := by
   cases cpus with
@@ -362,9 +364,9 @@ theorem refines_affinity (c : Cfg) (hg : c.Good) (k : Kernel) (pid : Nat) (st : 
           have hinv' : ∀ x ∈ cpus, fitsCLong x = true ∧ (x < 0 ∨ ¬ x.toNat ∈ Spec.eligible k st) := by
             intro x hx
             have := hinv x hx
-            simp only [Bool.and_eq_true, isNonexistentOrIneligible, Bool.or_eq_true, decide_eq_true_eq,
+            simp only [isNonexistentOrIneligible, Bool.or_eq_true, decide_eq_true_eq,
               Bool.not_eq_true', List.contains_eq_mem, decide_eq_false_iff_not] at this
-            exact this
+            exact ⟨hlong cpus rfl x hx, this⟩
           have hemp : cpus.isEmpty = false := by
             cases cpus with
             | nil => exact absurd rfl hne'
@@ -488,11 +490,11 @@ theorem expect_of_onlyUnusable {k : Kernel} {st : PState} {cpus : List Int} (pid
       · omega
       · omega
       · exact h he.2
-  have h2 : (cpus.all fun x => fitsCLong x && Spec.isNonexistentOrIneligible k st x) = true := by
+  have h2 : (cpus.all fun x => Spec.isNonexistentOrIneligible k st x) = true := by
     rw [List.all_eq_true]
     intro x hx
     obtain ⟨hf, hu⟩ := hall x hx
-    simp only [Bool.and_eq_true, hf, true_and, Spec.isNonexistentOrIneligible, Bool.or_eq_true,
+    simp only [Spec.isNonexistentOrIneligible, Bool.or_eq_true,
       decide_eq_true_eq, Bool.not_eq_true', List.contains_eq_mem, decide_eq_false_iff_not]
     rcases hu with hu | hu | hu
     · exact Or.inl hu
